@@ -23,7 +23,21 @@ Contracts (icontract) with the same references sit on ArrayTriangles.up_sample /
 CoordinateArrayTriangles.up_sample / neighborhood / for_indexes and shape.Point.mask (reached by every shape through
 super().mask), so internal calls are judged too.
 
-VALIDATED: see the list at the end of the module (filled in after running tools/mutant.py).
+Validated against (tools/mutant.py, 2026-10-03). DESIGN's four seeded breaks are all caught by the quick tier but are
+NOT suite-green (the repository's literal-vertex tests on the (0,0)/(1,0) unit triangles kill them as well):
+  m20a flipped-parity child offset [1,1]->[1,0]; m20b y_offset sign; m20c neighbour (0,-1)/(0,1) swapped;
+  m20d np.unique without axis=0 in CoordinateArrayTriangles.neighborhood (raises -> reported as a violation, not as
+  inconclusive: results are materialised inside ctx.guarded).
+Suite-green mutants (699/699), each caught by the QUICK tier - each needs a state the suite never builds:
+  m20e up_sample passes flipped=not self.flipped      (needs a flipped parent: second level / flipped=True input)
+                                                      -> contract CoordinateArrayTriangles.up_sample, coord:upsample.*
+  m20f neighborhood() drops flipped=self.flipped      (needs flipped=True)   -> coord:neighborhood.set + contract
+  m20g for_indexes() drops y_offset                   (needs y_offset != 0)  -> coord:for_indexes.same_triangles + contract
+  m20j up_sample y-shift -0.25*HEIGHT_FACTOR without *side_length (needs side_length != 1) -> coord:upsample.children
+  m20k Square.mask without `| super().mask()`         (needs a square smaller than the triangle) -> *:contains.square
+  m20m Polygon.mask without `| super().mask()`        (inner fan triangles read vertices as (y,x))  -> *:contains.polygon
+Also caught, not suite-green: Circle.mask without the point term (m20l), flip parity via fmod(...)==1 (m20i, negative odd
+sums), coordinate `.area` linear in side_length (m20p).
 """
 import numpy as np
 
